@@ -648,8 +648,76 @@ def eq_cookies(v):
         v.cover('read')
 
 
-ASSUMPTIONS = []
-NOT_DECIDED = []
-TRUSTED = []
-KILLS = []
-HARMLESS = []
+ASSUMPTIONS = [
+    'the coupling (function `couple`): one abstract request is presented as the environ a PEP 3333 server builds (HTTP_<NAME> keys, CONTENT_TYPE / CONTENT_LENGTH without the prefix, '
+    'REQUEST_METHOD, PATH_INFO, QUERY_STRING possibly absent for an empty query, wsgi.url_scheme, SERVER_NAME / SERVER_PORT, REMOTE_ADDR, SCRIPT_NAME) and as the ASGI HTTP scope '
+    '(method, path, query_string bytes, headers as a list of lower-cased name / value byte pairs, scheme possibly omitted when it is http, server, client, root_path)',
+    'repeated header lines: the WSGI server hands list-valued fields joined by "," in order and singleton fields (falcon.constants.SINGLETON_HEADERS) as their last occurrence -- '
+    'the rule asgi.Request.__init__ implements itself (source NOTE); real WSGI servers differ among themselves here (wsgiref joins every repeated field with ",")',
+    'by design, documented in the sources: (1) PATH_INFO of a WSGI request is latin-1 tunnelled and re-decoded as UTF-8 while an ASGI server delivers the decoded path -- coupled on ASCII paths; '
+    'query strings likewise ASCII; (2) Request.headers uses upper-cased names on WSGI and lower-cased names on ASGI (both docstrings) -- compared modulo case, headers_lower compared exactly; '
+    '(3) a scope without "server" defaults to ("localhost", 80|443) (ASGI docstring of host / _asgi_server) while PEP 3333 makes SERVER_NAME / SERVER_PORT mandatory -- coupled with "server" present; '
+    '(4) scope["client"] and REMOTE_ADDR are both optional and both default to 127.0.0.1; (5) only the http scope type is coupled (websocket scopes have no WSGI twin)',
+    'a peer address supplied by the server is not the empty string (with an empty one and no route headers WSGI access_route is [""] and ASGI access_route is [])',
+    'get_header names are the spellings an application writes for the representative fields (any mix of upper / lower case, "-" separators); a name written with "_" reaches the same CGI variable '
+    'on WSGI (PEP 3333 cannot distinguish X_Token from X-Token) and has no ASGI twin',
+    'opaque helpers (parse_query_string, _parse_forwarded_header, _parse_etags, _parse_cookie_header, http_date_to_dt, mediatypes.quality) are functions of their arguments; both classes use the '
+    'same function objects (clause both-sides-call-the-same-helper-functions) and every call is checked to receive equal arguments on both sides',
+    'int() is one uninterpreted function shared by both sides (model of C09); all C09 ASSUMPTIONS about it, about latin-1 header values and about the bounded shapes '
+    '(X-Forwarded-For with at most 3 addresses, at most 2 Forwarded elements) apply',
+]
+NOT_DECIDED = [
+    'response side: status, header set and body produced by the two App.__call__ tails -- decided separately against one framing specification in C05, not relationally here',
+    'the falcon.testing half (create_environ / create_scope, ASGI event emitters and collectors, simulate_request versus a spec-faithful server driver): test scaffolding whose specification is two '
+    'external protocol documents; not decided by this technique',
+    'request bodies and media across the stacks (bounded_stream / stream, get_media): covered by the C07 and C12 contracts per stack',
+    'get_param* / has_param / client_prefers / context: shared source operating on _params / accept, which are shown equal here; not run pairwise',
+    'header names with arbitrary (symbolic) spelling in get_header: the two sides normalise with different functions (upper + "-" -> "_" versus lower); only concrete spellings are compared',
+    'non-ASCII paths and query strings, websocket scopes, scope["client"] = None (C09 finding), scope without "server"',
+]
+TRUSTED = [
+    'the coupling `couple`, the folding specification `fold`, the restated singleton set, SharedParser (k-th call on either side gets the k-th outcome) in contracts/C06_equivalence.py',
+    'everything listed as TRUSTED in contracts/C09_request_headers.py (int model, codec model, word-equation hooks, `patched`)',
+    'agreement is observed through `values_equal`: strings and numbers by value, lists / tuples / dicts element-wise, opaque parser results by identity',
+]
+KILLS = [
+    # a changed default port on ONE side
+    ('falcon/asgi/request.py', '            default_port = 443 if self._secure_scheme else 80\n            __, port = parse_host(host_header, default_port=default_port)\n',
+     '            default_port = 8443 if self._secure_scheme else 80\n            __, port = parse_host(host_header, default_port=default_port)\n', 'falcon.asgi.request:Request.port#wsgi-and-asgi-agree'),
+    ('falcon/request.py', "            default_port = 80 if self.env['wsgi.url_scheme'] == 'http' else 443\n", "            default_port = 8080 if self.env['wsgi.url_scheme'] == 'http' else 443\n",
+     'falcon.asgi.request:Request.port#wsgi-and-asgi-agree'),
+    ('falcon/request.py', "            else:\n                if port != '80':\n", "            else:\n                if port != '8080':\n", 'falcon.asgi.request:Request.netloc#wsgi-and-asgi-agree'),
+    # the header folding rule changed
+    ('falcon/asgi/request.py', "                req_headers[header_name] += b',' + header_value\n", "                req_headers[header_name] += b', ' + header_value\n", 'falcon.asgi.request:Request.get_header#wsgi-and-asgi-agree'),
+    ('falcon/asgi/request.py', '                header_name not in req_headers\n                or header_name in _SINGLETON_HEADERS_BYTESTR\n', '                header_name not in req_headers\n',
+     'falcon.asgi.request:Request.get_header#wsgi-and-asgi-agree'),
+    # a lower() / upper() lost on one side
+    ('falcon/asgi/request.py', "            asgi_name = name.lower().encode('latin1')\n", "            asgi_name = name.encode('latin1')\n", 'falcon.asgi.request:Request.get_header#wsgi-and-asgi-agree'),
+    ('falcon/request.py', "        wsgi_name = name.upper().replace('-', '_')\n", "        wsgi_name = name.replace('-', '_')\n", 'falcon.asgi.request:Request.get_header#wsgi-and-asgi-agree'),
+    ('falcon/asgi/request.py', "                    self._asgi_headers[b'x-forwarded-proto'].decode('latin1').lower()\n", "                    self._asgi_headers[b'x-forwarded-proto'].decode('latin1')\n",
+     'falcon.asgi.request:Request.forwarded_scheme#wsgi-and-asgi-agree'),
+    # `or '/'` dropped on one side
+    ('falcon/asgi/request.py', "        path = scope['path'] or '/'\n", "        path = scope['path']\n", 'falcon.request:Request.path#wsgi-and-asgi-agree'),
+    ('falcon/request.py', "        path: str = env['PATH_INFO'] or '/'\n", "        path: str = env['PATH_INFO']\n", 'falcon.request:Request.path#wsgi-and-asgi-agree'),
+    # ASGI content_length `<` vs `<=`
+    ('falcon/asgi/request.py', '        if value_as_int < 0:\n', '        if value_as_int <= 0:\n', 'falcon.asgi.request:Request.content_length#wsgi-and-asgi-agree'),
+    # trailing-slash stripping on one side only
+    ('falcon/request.py', '            self.path: str = path[:-1]\n', '            self.path: str = path\n', 'falcon.request:Request.path#wsgi-and-asgi-agree'),
+    ('falcon/asgi/request.py', '            self.path = path[:-1]\n', '            self.path = path\n', 'falcon.request:Request.path#wsgi-and-asgi-agree'),
+    # request options not handed to the query-string parser on one side
+    ('falcon/asgi/request.py', '                keep_blank=self.options.keep_blank_qs_values,\n', '                keep_blank=True,\n',
+     'falcon.asgi.request:Request.__init__#query-string-parsed-once-by-parse_query_string-with-the-request-options'),
+    # defaults drifting apart
+    ('falcon/request.py', "            value = '127.0.0.1'\n", "            value = 'localhost'\n", 'falcon.asgi.request:Request.remote_addr#wsgi-and-asgi-agree'),
+    ('falcon/asgi/request.py', "            return self._asgi_headers[b'accept'].decode('latin1') or '*/*'\n", "            return self._asgi_headers[b'accept'].decode('latin1') or '*'\n",
+     'falcon.asgi.request:Request.accept#wsgi-and-asgi-agree'),
+    ('falcon/asgi/request.py', "                addresses = headers[b'x-forwarded-for'].decode('latin1').split(',')\n", "                addresses = headers[b'x-forwarded-for'].decode('latin1').split(';')\n",
+     'falcon.asgi.request:Request.access_route#wsgi-and-asgi-agree'),
+    # the twin reads another header
+    ('falcon/asgi/request.py', "            header_value = self._asgi_headers.get(b'if-match')\n", "            header_value = self._asgi_headers.get(b'if-none-match')\n", 'falcon.asgi.request:Request.if_match#'),
+    ('falcon/request.py', "            self.content_type = self.env['CONTENT_TYPE']\n", "            self.content_type = self.env['HTTP_CONTENT_TYPE']\n", 'falcon.request:Request.content_type#wsgi-and-asgi-agree'),
+]
+HARMLESS = [
+    ('falcon/asgi/request.py', "        path = scope['path'] or '/'\n", "        path = scope['path'] if scope['path'] else '/'\n"),
+    ('falcon/asgi/request.py', "        if self.method == 'GET':\n", "        if self.method == 'GET' and self.method != 'POST':\n"),
+]
